@@ -426,6 +426,22 @@ def check_hash_not_finer_than_eq(ctx, rule: str):
     ctx.check(not raw, rule, th.key + ":coarser-than-eq", "the hash sees the coefficient only through round(...)", f"PauliTerm.__hash__ hashes the coefficient itself (`{short(hs[-1], 80)}`) while PauliTerm.__eq__ is tolerant: two terms that compare equal (a real coefficient and the same value with 1e-16j of rounding noise) get different hashes, so the set comparisons behind PauliSum.__eq__ and is_hermitian call equal operators different", f"{th.module.relpath}:{hs[-1].lineno}")
 
 
+def check_is_constant(ctx, rule: str):
+    """`is_constant` asks whether a term has no Pauli factor -- a statement about its operators. Several routines branch on it
+    (time evolution: empty circuit; averaging: no shots needed; expectation: the coefficient itself). Letting the coefficient
+    into the answer ("a vanishing term is constant") makes them drop or mis-handle terms with small coefficients."""
+    f = ctx.repo.func(f"{MOD}:PauliTerm.is_constant")
+    ctx.analysed(f)
+    rets = returned_exprs(f.node)
+    r = rets[0] if len(rets) == 1 else None
+    ok = r is not None and norm(r) in ("self._ops == {}", "not self._ops", "len(self._ops) == 0", "self._ops == dict()", "not self.operations", "len(self.operations) == 0", "self.operations == ()", "self.operations == frozenset()")
+    uses_coeff = r is not None and any(isinstance(x, ast.Attribute) and x.attr == "coefficient" for x in ast.walk(r))
+    if uses_coeff:
+        ctx.violation(rule, f.key, f"PauliTerm.is_constant is `{short(r, 90)}`: the coefficient takes part in the answer, so a term with Pauli factors and a tiny coefficient counts as constant -- its time evolution becomes the empty circuit whatever the time, and it is skipped as 'needs no measurement'", f"{f.module.relpath}:{r.lineno}")
+    else:
+        ctx.check(ok, rule, f.key, "constant = no Pauli factor", f"PauliTerm.is_constant returns {short(r) if r is not None else None}: not the test that the term has no Pauli factor", f)
+
+
 def check_operand_truthiness(ctx):
     """An operator's truth value is its __len__ -- the number of non-identity factors of a term, the number of terms of a sum --
     not "is it zero": the constant term 3*I is falsy without being zero. An arithmetic method that branches on the truthiness of
